@@ -542,11 +542,11 @@ theorem zipAssignAt_getElem : ∀ (l : List GProc) (avail : List String) (k : Na
       unfold zipAssignAt
       by_cases hp : p0.ids.atIds.isEmpty = true
       · have hc : ((p0 :: t).take (k' + 1)).countP hasAt = (t.take k').countP hasAt := by
-          simp [List.take_succ_cons, List.countP_cons, hasAt, hp]
+          simp [List.take_succ_cons, hasAt, hp]
         simp only [hp, if_true, List.getElem?_cons_succ, hc]
         exact ih avail k' p h
       · have hc : ((p0 :: t).take (k' + 1)).countP hasAt = (t.take k').countP hasAt + 1 := by
-          simp [List.take_succ_cons, List.countP_cons, hasAt, hp]
+          simp [List.take_succ_cons, hasAt, hp]
         cases avail with
         | nil =>
           simp only [hp, Bool.false_eq_true, if_false, List.getElem?_cons_succ, hc]
@@ -563,7 +563,7 @@ theorem countP_take_lt {l : List GProc} {k1 k2 : Nat} {p : GProc} (hlt : k1 < k2
     · exact h
     · rw [List.getElem?_eq_none h] at h1; cases h1
   have hstep : (l.take (k1 + 1)).countP hasAt = (l.take k1).countP hasAt + 1 := by
-    rw [List.take_succ, h1]
+    rw [List.take_add_one, h1]
     simp [List.countP_append, hp]
   have hmono : (l.take (k1 + 1)).countP hasAt ≤ (l.take k2).countP hasAt := by
     have hsub : (l.take (k1 + 1)).Sublist (l.take k2) := List.take_sublist_take_left (by omega)
@@ -634,7 +634,7 @@ theorem rr_full (m q : Nat) : rr m q m = rr m (q + 1) 0 := by
 
 /-- the assignment loop on a group where every process carries `#`, started from balanced counts: never fails and
     assigns in round-robin order -/
-theorem loopAssignHash_rr (ref : List String) (hne : ref ≠ []) : ∀ (l : List GProc) (q r : Nat), r < ref.length →
+theorem loopAssignHash_rr (ref : List String) : ∀ (l : List GProc) (q r : Nat), r < ref.length →
     (∀ p ∈ l, p.ids.hashIds.isEmpty = false) →
     ∃ l', loopAssignHash ref l (rr ref.length q r) = .ok l' ∧ l'.length = l.length ∧
       ∀ k p, l[k]? = some p → l'[k]? = some (hashAssigned p (ref.getD ((r + k) % ref.length) "")) := by
@@ -670,5 +670,300 @@ theorem loopAssignHash_rr (ref : List String) (hne : ref ≠ []) : ∀ (l : List
       | succ k' =>
         simp only [List.getElem?_cons_succ] at hk ⊢
         rw [e3 k' p hk, hidx k']
+
+theorem nodup_getElem?_ne {α} : ∀ (l : List α) (i j : Nat) (a b : α), l.Nodup → i < j → l[i]? = some a → l[j]? = some b → a ≠ b := by
+  intro l
+  induction l with
+  | nil => intro i j a b _ _ h; simp at h
+  | cons x t ih =>
+    intro i j a b hnd hlt h1 h2
+    rw [List.nodup_cons] at hnd
+    cases j with
+    | zero => omega
+    | succ j' =>
+      simp only [List.getElem?_cons_succ] at h2
+      cases i with
+      | zero =>
+        simp only [List.getElem?_cons_zero, Option.some.injEq] at h1
+        subst h1
+        intro hc
+        subst hc
+        exact hnd.1 (List.mem_of_getElem? h2)
+      | succ i' =>
+        simp only [List.getElem?_cons_succ] at h1
+        exact ih i' j' a b hnd.2 (by omega) h1 h2
+
+theorem zipAssignAt_noAt : ∀ (l : List GProc) (avail : List String), (∀ p ∈ l, hasAt p = false) → zipAssignAt l avail = l := by
+  intro l
+  induction l with
+  | nil => intro _ _; rfl
+  | cons p t ih =>
+    intro avail h
+    have hp : p.ids.atIds.isEmpty = true := by simpa [hasAt] using h p (by simp)
+    simp only [zipAssignAt, hp, if_true, ih avail (fun q hq => h q (by simp [hq]))]
+
+theorem mem_insertByIndex (p x : GProc) : ∀ (l : List GProc), x ∈ insertByIndex p l ↔ x = p ∨ x ∈ l := by
+  intro l
+  induction l with
+  | nil => simp [insertByIndex]
+  | cons q t ih =>
+    simp only [insertByIndex]
+    split
+    · simp
+    · simp only [List.mem_cons, ih]
+      constructor
+      · rintro (h | h | h)
+        · exact Or.inr (Or.inl h)
+        · exact Or.inl h
+        · exact Or.inr (Or.inr h)
+      · rintro (h | h | h)
+        · exact Or.inr (Or.inl h)
+        · exact Or.inl h
+        · exact Or.inr (Or.inr h)
+
+theorem mem_foldl_insertByIndex (x : GProc) : ∀ (l acc : List GProc),
+    x ∈ l.foldl (fun acc p => insertByIndex p acc) acc ↔ x ∈ l ∨ x ∈ acc := by
+  intro l
+  induction l with
+  | nil => intro acc; simp
+  | cons p t ih =>
+    intro acc
+    simp only [List.foldl_cons, ih, mem_insertByIndex, List.mem_cons]
+    constructor
+    · rintro (h | h | h)
+      · exact Or.inl (Or.inr h)
+      · exact Or.inl (Or.inl h)
+      · exact Or.inr h
+    · rintro ((h | h) | h)
+      · exact Or.inr (Or.inl h)
+      · exact Or.inl h
+      · exact Or.inr (Or.inr h)
+
+theorem mem_sortByIndex (x : GProc) (l : List GProc) : x ∈ sortByIndex l ↔ x ∈ l := by
+  unfold sortByIndex
+  rw [mem_foldl_insertByIndex]
+  simp
+
+/-! ### options -/
+
+theorem toRanged_some (lo hi : Int) (s : String) (v : Int) (h : toRanged lo hi s = some v) :
+    pyInt s = some v ∧ lo ≤ v ∧ v ≤ hi := by
+  unfold toRanged at h
+  split at h
+  · rename_i x hx
+    split at h
+    · cases h
+    · injection h with h; subst h
+      exact ⟨hx, by omega, by omega⟩
+  · cases h
+
+theorem getValue_ranged (cfg : Config) (k : String) (lo hi dflt : Int) :
+    getValue cfg k dflt (toRanged lo hi) = specRanged lo hi dflt (lookupStr cfg k) := by
+  unfold getValue specRanged
+  cases lookupStr cfg k with
+  | none => rfl
+  | some s =>
+    simp only [Option.bind_some]
+    unfold toRanged
+    cases pyInt s with
+    | none => rfl
+    | some v =>
+      simp only
+      by_cases h : lo ≤ v ∧ v ≤ hi
+      · rw [if_neg (by omega), if_pos h]; rfl
+      · rw [if_pos (by omega), if_neg h]; rfl
+
+theorem specRanged_range (lo hi dflt : Int) (t : Option String) :
+    specRanged lo hi dflt t = dflt ∨ (lo ≤ specRanged lo hi dflt t ∧ specRanged lo hi dflt t ≤ hi) := by
+  unfold specRanged
+  split
+  · split
+    · right; assumption
+    · left; rfl
+  · left; rfl
+
+theorem getValue_enum (cfg : Config) (k : String) (names : List String) (dflt : String) :
+    getValue cfg k dflt (toEnumUpper names) = specEnum names dflt (lookupStr cfg k) := by
+  unfold getValue specEnum
+  cases lookupStr cfg k with
+  | none => rfl
+  | some s =>
+    simp only [toEnumUpper]
+    split <;> rfl
+
+theorem specEnum_mem (names : List String) (dflt : String) (t : Option String) (hd : dflt ∈ names) :
+    specEnum names dflt t ∈ names := by
+  unfold specEnum
+  split
+  · split
+    · rename_i h; simpa using h
+    · exact hd
+  · exact hd
+
+theorem getValue_bool (cfg : Config) (k : String) (dflt : Bool) :
+    getValue cfg k dflt svBoolean = specBool dflt (lookupStr cfg k) := by
+  unfold getValue specBool
+  cases lookupStr cfg k with
+  | none => rfl
+  | some s =>
+    simp only [Option.bind_some]
+    cases svBoolean s <;> rfl
+
+theorem toPeriod_range (s : String) (p : Period) (h : toPeriod s = some p) (hn : pyFloat s ≠ some .nan) :
+    periodInRange p = true := by
+  unfold toPeriod at h
+  split at h
+  · rename_i hf; exact absurd hf hn
+  · rename_i n d hf
+    split at h
+    · cases h
+    · rename_i hr
+      injection h with h; subst h
+      simp only [periodInRange, periodBounds] at hr ⊢
+      simp only [Bool.and_eq_true, decide_eq_true_eq]
+      omega
+  · cases h
+
+theorem optAll_spec {α} : ∀ (l : List (Option α)) (r : List α), optAll l = some r →
+    r.length = l.length ∧ ∀ x ∈ r, some x ∈ l := by
+  intro l
+  induction l with
+  | nil => intro r h; simp only [optAll, Option.some.injEq] at h; subst h; simp
+  | cons a t ih =>
+    intro r h
+    cases a with
+    | none => simp [optAll] at h
+    | some v =>
+      simp only [optAll] at h
+      split at h
+      · rename_i r' hr'
+        injection h with h; subst h
+        obtain ⟨i1, i2⟩ := ih r' hr'
+        refine ⟨by simp [i1], ?_⟩
+        intro x hx
+        simp only [List.mem_cons] at hx
+        rcases hx with rfl | hx
+        · simp
+        · simp [i2 x hx]
+      · cases h
+
+theorem binInsertAll_spec {α} (lt : α → α → Bool) : ∀ (rest sorted : List α),
+    (binInsertAll lt sorted rest).length = sorted.length + rest.length ∧
+    ∀ x, x ∈ binInsertAll lt sorted rest ↔ x ∈ sorted ∨ x ∈ rest := by
+  intro rest
+  induction rest with
+  | nil => intro sorted; simp [binInsertAll]
+  | cons y t ih =>
+    intro sorted
+    simp only [binInsertAll]
+    obtain ⟨i1, i2⟩ := ih (List.take (binPos lt y sorted (sorted.length + 1) 0 sorted.length) sorted ++ [y] ++
+      List.drop (binPos lt y sorted (sorted.length + 1) 0 sorted.length) sorted)
+    have hmem : ∀ (pos : Nat) (x : α), x ∈ List.take pos sorted ++ [y] ++ List.drop pos sorted ↔ x = y ∨ x ∈ sorted := by
+      intro pos x
+      conv => rhs; rw [← List.take_append_drop pos sorted]
+      simp only [List.mem_append, List.mem_singleton]
+      constructor
+      · rintro ((h | h) | h)
+        · exact Or.inr (Or.inl h)
+        · exact Or.inl h
+        · exact Or.inr (Or.inr h)
+      · rintro (h | h | h)
+        · exact Or.inl (Or.inr h)
+        · exact Or.inl (Or.inl h)
+        · exact Or.inr h
+    have hlen : ∀ (pos : Nat), (List.take pos sorted ++ [y] ++ List.drop pos sorted).length = sorted.length + 1 := by
+      intro pos
+      have := congrArg List.length (List.take_append_drop pos sorted)
+      simp only [List.length_append, List.length_cons, List.length_nil] at this ⊢
+      omega
+    refine ⟨by rw [i1, hlen]; simp; omega, ?_⟩
+    intro x
+    rw [i2, hmem]
+    simp only [List.mem_cons]
+    constructor
+    · rintro ((h | h) | h)
+      · exact Or.inr (Or.inl h)
+      · exact Or.inl h
+      · exact Or.inr (Or.inr h)
+    · rintro (h | h | h)
+      · exact Or.inl (Or.inr h)
+      · exact Or.inl (Or.inl h)
+      · exact Or.inr h
+
+/-- the sort of CPython keeps the elements (whatever the comparison does, `nan` included) -/
+theorem pySort_spec {α} (lt : α → α → Bool) (l : List α) :
+    (pySort lt l).length = l.length ∧ ∀ x, x ∈ pySort lt l ↔ x ∈ l := by
+  have key : ∀ (n : Nat) (rev : Bool) (l : List α),
+      (binInsertAll lt (if rev then (l.take n).reverse else l.take n) (l.drop n)).length = l.length ∧
+      ∀ x, x ∈ binInsertAll lt (if rev then (l.take n).reverse else l.take n) (l.drop n) ↔ x ∈ l := by
+    intro n rev l
+    obtain ⟨i1, i2⟩ := binInsertAll_spec lt (l.drop n) (if rev then (l.take n).reverse else l.take n)
+    have hl := congrArg List.length (List.take_append_drop n l)
+    simp only [List.length_append] at hl
+    refine ⟨?_, ?_⟩
+    · rw [i1]; cases rev <;> simp only [Bool.false_eq_true, if_false, if_true, List.length_reverse] <;> omega
+    · intro x
+      rw [i2]
+      have hx : x ∈ l ↔ x ∈ l.take n ∨ x ∈ l.drop n := by
+        rw [← List.mem_append, List.take_append_drop]
+      rw [hx]
+      cases rev <;> simp
+  match l with
+  | [] => simp [pySort]
+  | [x] => simp [pySort]
+  | x :: y :: t =>
+    simp only [pySort]
+    split
+    · exact key (2 + runDesc lt y t) true (x :: y :: t)
+    · exact key (2 + runAsc lt y t) false (x :: y :: t)
+
+/-- the clean-up of `check_options`, by membership (the list has no duplicate: `to_synchro_options` removes them) -/
+theorem mem_synchroCleanup (o : Options) (hnd : o.synchroOptions.Nodup) (x : String) :
+    x ∈ synchroCleanup o ↔ x ∈ o.synchroOptions ∧ ¬(x = "CORE" ∧ o.coreIdentifiers.isEmpty = true) ∧
+      ¬(x = "STRICT" ∧ (o.supvisorsList.getD []).isEmpty = true) := by
+  have step : ∀ (l : List String) (name : String) (c : Bool), l.Nodup →
+      ((if c && l.contains name then l.erase name else l).Nodup ∧
+       ∀ y, y ∈ (if c && l.contains name then l.erase name else l) ↔ y ∈ l ∧ ¬(y = name ∧ c = true)) := by
+    intro l name c hl
+    cases c with
+    | true =>
+      by_cases hm : l.contains name = true
+      · simp only [hm, Bool.and_self, if_true]
+        refine ⟨List.Nodup.erase name hl, fun y => ?_⟩
+        rw [List.Nodup.mem_erase_iff hl]
+        constructor
+        · rintro ⟨h1, h2⟩; exact ⟨h2, fun h => h1 h.1⟩
+        · rintro ⟨h1, h2⟩; exact ⟨fun h => h2 ⟨h, trivial⟩, h1⟩
+      · simp only [hm, Bool.and_false, Bool.false_eq_true, if_false]
+        refine ⟨hl, fun y => ?_⟩
+        constructor
+        · intro h
+          refine ⟨h, fun hh => ?_⟩
+          apply hm
+          rw [← hh.1]
+          simpa using h
+        · exact fun h => h.1
+    | false =>
+      simp only [Bool.false_and, Bool.false_eq_true, if_false]
+      exact ⟨hl, fun y => ⟨fun h => ⟨h, fun hh => by cases hh.2⟩, fun h => h.1⟩⟩
+  unfold synchroCleanup
+  obtain ⟨n1, m1⟩ := step o.synchroOptions "CORE" o.coreIdentifiers.isEmpty hnd
+  obtain ⟨_, m2⟩ := step _ "STRICT" (o.supvisorsList.getD []).isEmpty n1
+  simp only
+  rw [m2, m1]
+  constructor
+  · rintro ⟨⟨h1, h2⟩, h3⟩; exact ⟨h1, h2, h3⟩
+  · rintro ⟨h1, h2, h3⟩; exact ⟨⟨h1, h2⟩, h3⟩
+
+theorem convertOptions_sync_nodup (dflt : List String) (cfg : Config) (hd : dflt.Nodup) :
+    (convertOptions dflt cfg).synchroOptions.Nodup := by
+  simp only [convertOptions, getValue]
+  cases lookupStr cfg "synchro_options" with
+  | none => exact hd
+  | some v =>
+    simp only [toSynchroOptions]
+    split
+    · exact dedup_nodup _
+    · exact hd
 
 end Supv.Rules
